@@ -2208,6 +2208,41 @@ def rule_varint_constants(out, tier):
         out.undecided(rid, "anchor/varint routines", rel, "no literal found in the varint routines")
 
 
+def rule_no_static_locals_from_arguments(out, tier):
+    rid = "CS1"
+    out.rule(rid, "runtime headers (detail/binary, detail/ndjson): no function-local `static` variable is initialised from a parameter of its function — such a value is computed by "
+                  "the first call and answers every later call (the expected schema of the first reader opened in the process would validate all others)", 1)
+    n_fn = 0
+    sources = [("binary/" + h, dump(out.repo, h)) for h in ("coded_stream.h", "serializers.h", "header.h", "reader_writer.h")]
+    if _nlohmann_include() is not None:
+        sources += [("ndjson/" + h, dump_ndjson(out.repo, h)) for h in ("header.h", "serializers.h")]
+    seen = set()
+    k = 0
+    for label, (roots, rc, err) in sources:
+        if not roots:
+            continue
+        for r in roots:
+            annotate_lines(r)
+            for fn in walk(r):
+                if fn.get("kind") not in ("FunctionDecl", "CXXMethodDecl", "CXXConstructorDecl") or body_of(fn) is None or fn.get("id") in seen:
+                    continue
+                seen.add(fn.get("id"))
+                n_fn += 1
+                pids = {p.get("id") for p in params_of(fn)}
+                for v in walk(body_of(fn)):
+                    if v.get("kind") != "VarDecl" or v.get("storageClass") != "static":
+                        continue
+                    k += 1
+                    uses_param = any(y.get("kind") == "DeclRefExpr" and (y.get("referencedDecl") or {}).get("id") in pids for y in walk(v))
+                    out.check(not uses_param, rid, "%s/%s/static %s" % (label, fn.get("name"), v.get("name")), "%s:%d" % (INC + "/detail/" + label, v.get("_line", 0)),
+                              "initialised without reference to the arguments", "`static %s` in %s is initialised from an argument: the first call's value is kept for the life of the process and "
+                              "used for every later call with other arguments" % (v.get("name"), fn.get("name")))
+    if n_fn >= 40:
+        out.ok(rid, "anchor/functions scanned", INC + "/detail", "%d function bodies of the runtime headers scanned" % n_fn)
+    else:
+        out.undecided(rid, "anchor/functions scanned", INC + "/detail", "only %d function bodies found" % n_fn)
+
+
 def _nlohmann_include():
     for d in ("/usr/include", "/usr/local/include", "/root/miniconda/include", "/opt/conda/include"):
         if os.path.exists(os.path.join(d, "nlohmann", "json.hpp")):
@@ -2488,9 +2523,9 @@ def rule_no_swallowed_eof(out, tier):
 RULES = {
     "C16": [rule_coded_stream_bounds, rule_blocks, rule_fill_loops_end, rule_stream_reads_counted, rule_no_swallowed_eof, rule_ndjson_lookahead],
     "C01": [rule_coded_stream_bounds, rule_serializer_twins, rule_output_order, rule_reader_overwrites, rule_trivial_trait_set, rule_blocks, rule_zigzag_width, rule_integer_dispatch, rule_shift_in_destination_type, rule_varint_constants],
-    "C15": [rule_cxx_header, rule_ndjson_header],
+    "C15": [rule_cxx_header, rule_ndjson_header, rule_no_static_locals_from_arguments],
     "C02": [rule_ndjson_lookahead],
-    "C04": [rule_cxx_header, rule_output_order, rule_ndjson_header],
+    "C04": [rule_cxx_header, rule_output_order, rule_ndjson_header, rule_no_static_locals_from_arguments],
     "C03": [rule_output_order, rule_reader_overwrites, rule_integer_dispatch, rule_shift_in_destination_type, rule_zigzag_width, rule_varint_constants],
     "C17": [rule_reader_overwrites, rule_blocks, rule_trivial_trait_set, rule_output_order, rule_pointer_offset_units],
 }
